@@ -1285,6 +1285,9 @@ func (s *State) evalArrayInfixExpression(operator token.Type, left, right object
 		if rightVal < 0 {
 			return s.NewError("right operand of * on arrays must be a positive integer")
 		}
+		if len(leftVal) == 0 { // nothing to repeat: the loop below would still spin rightVal times, uninterruptibly.
+			return left
+		}
 		result := object.MakeObjectSlice(object.SizeMul(len(leftVal), int(rightVal)))
 		for range rightVal {
 			result = append(result, leftVal...)
